@@ -125,9 +125,31 @@ Fixpoint k_steps (hk : hooks) (c : kcfg) (n : nat) (s : kstate) : kstate * list 
       (s2, it ++ its, r :: rs)
   end.
 
+(** Code outside the event loop (driver code between two calls of step_simulation) that changes
+    handler state and asks for events to be scheduled, at the current clock. *)
+Definition k_external (f : H -> F -> H * list (F * P) * list T) (s : kstate) : kstate * list kitem :=
+  let '(h1, reqs, items) := f (k_h s) (el_now (k_el s)) in
+  let '(l1, ref) := sched_all (k_el s) reqs in
+  (mkK l1 h1 (k_iter s) (k_inited s) (k_final s) (k_aborted s), map KUser items ++ ref).
+
+Inductive kdrv : Type := KDStep | KDExt (f : H -> F -> H * list (F * P) * list T).
+
+(** Any interleaving of step_simulation() calls and external code. *)
+Fixpoint k_drive (hk : hooks) (c : kcfg) (ops : list kdrv) (s : kstate) : kstate * list kitem :=
+  match ops with
+  | [] => (s, [])
+  | KDStep :: r =>
+      let '(s1, it, _) := k_step hk c s in
+      let '(s2, its) := k_drive hk c r s1 in (s2, it ++ its)
+  | KDExt f :: r =>
+      let '(s1, it) := k_external f s in
+      let '(s2, its) := k_drive hk c r s1 in (s2, it ++ its)
+  end.
+
 End Kernel.
 
 Arguments kitem : clear implicits.
 Arguments kstate : clear implicits.
 Arguments hooks : clear implicits.
 Arguments kcfg : clear implicits.
+Arguments kdrv : clear implicits.
